@@ -107,6 +107,9 @@ def run_recipe(acc: Acc, group: str, label: str, recipe: dict, aliases, formatte
                 import_stmt = fl.representation.import_statement()
                 code = fl.PythonExporter(formatted=formatted, encapsulated=(mode == "encapsulated")).to_string(E)
                 want_repr = repr(E)
+                if repr(E) != want_repr:
+                    acc.violate("not-repeatable", {"group": group}, case, want_repr[:120], "differs", f"[{label}]: repr of the same engine differs between two calls")
+                    continue
                 want_fll = fl.FllExporter().to_string(E)
                 try:
                     E2 = rebuild(code, import_stmt, mode, fl.Op.pascal_case(E.name))
